@@ -7,7 +7,7 @@ from . import prim, l2, l3
 def run(run, tier):
     r = E1Runner(run)
     prim.run_group(run, r, prim.DEC_HARNESSES + prim.PREFIX_HARNESSES + prim.GUARD_HARNESSES + prim.SKIP_EXACT_HARNESSES + prim.SKIP_PREFIX_HARNESSES)
-    ch.run_harnesses(run, "C03", l3.harnesses(tier, run.seed), timeout=100 if tier == "quick" else 400)
+    ch.run_harnesses(run, "C03", l3.harnesses(tier, run.seed), timeout=100 if tier == "quick" else 250)
     l2.describe(run, tier)
     run.bounds += ["layouts: <= 3 items per array/map, every partition into blocks, each block in positive or "
                    "negative-count form with an arbitrary byte-size field; one corrupted union/enum index at any position; "
